@@ -87,6 +87,7 @@ type ProviderSpec struct {
 	StructFields      []*StructFieldSpec
 	DeclOrder         int
 	IsReturnError     bool
+	ErrorIndex        int // position of the error among the provider's results (IsReturnError only)
 	IsAsync           bool
 	IsVariadic        bool
 }
